@@ -1,11 +1,12 @@
 """C12 — Named-paths groups round-trip and select by identity."""
 from core import run_cases
 
-MODULES = ["Props.C12", "Props.SelectTie"]
+MODULES = ["Props.C12", "Props.SelectTie", "Props.IdentityTie"]
 THEOREMS = ["Props.C12.c12_roundtrip", "Props.C12.c12_pieces_shape", "Props.C12.c12_select", "Props.C12.c12_manifest",
             "Props.C12.c12_identity_precedence",
             "Props.SelectTie.get_to_source_is_model", "Props.SelectTie.get_from_source_is_model", "Props.SelectTie.find_one_source_is_model",
-            "Props.SelectTie.c12_select_source"]
+            "Props.SelectTie.c12_select_source",
+            "Props.IdentityTie.identity_source_is_model", "Props.IdentityTie.c12_identity_precedence_source"]
 
 
 def run(check, tier):
